@@ -76,7 +76,7 @@ pub fn run(reg: &dyn Registry, ctx: &Ctx) -> Outcome {
 
             // complete sub-cubes of the u64 argument (types with ==)
             if info.has_eq {
-                let bitsn: u32 = if info.family == Family::Hc128 { if thorough { 22 } else { 16 } } else if thorough { 32 } else { 22 };
+                let bitsn: u32 = if info.family == Family::Hc128 { if thorough { 22 } else { 16 } } else if thorough { 30 } else { 22 };
                 for (base_tag, shift) in [(0x0911u64, 0u32), (0x0912, 64 - bitsn), (0x0913, 16)] {
                     let mut b = [0u8; 8];
                     b.copy_from_slice(&alphabet::bg_bytes(ctx.seed, base_tag, 8));
